@@ -189,7 +189,12 @@ def interactive_world(r):
         free = [(0, 0)]
     p = r.choice(free)
     held = r.choice([gen.NONE, gen.NONE, (T['Key'], 0, col, None), (T['Key'], 0, r.choice(gen.COLORS[1:]), None)])
-    return (g, p, r.randrange(4), held)
+    o = r.randrange(4)
+    facing = [d for d in range(4) if 0 <= p[0] + _DIRS[d][0] < h and 0 <= p[1] + _DIRS[d][1] < w
+              and g[p[0] + _DIRS[d][0]][p[1] + _DIRS[d][1]][0] in (T['Door'], T['Box'], T['Key'])]
+    if facing and r.random() < 0.65:
+        o = r.choice(facing)          # heading value d faces direction _DIRS[d] (F up, B down, L left, R right)
+    return (g, p, o, held)
 
 
 def run_histories(ctx, n, step_oracle, length=(3, 10)):
